@@ -306,7 +306,7 @@ Theorem C11_VM_fit_call :
            Ok
              {|
                VonMisesDistribution_kappa := k;
-               VonMisesDistribution_mu := m;
+               VonMisesDistribution_mu := VM_fix_mu s m;
                VonMisesDistribution_f_kappa := VonMisesDistribution_f_kappa s;
                VonMisesDistribution_f_mu := VonMisesDistribution_f_mu s
              |}
@@ -320,17 +320,18 @@ Theorem C11_VM_fit_keywords_valid :
        forallb (fun kv : string * R => key_ok "vonmises" (fst kv)) (f_kw (VM_call s)) = true.
 Proof. exact (@VM_keys_valid). Qed.
 
-(* VonMises: under the fit contract fitting succeeds, each fixed parameter still has exactly its value, the f_ attributes are unchanged (exact reals; binary64 round-off of exp/log and 1/x is outside the theorem) *)
+(* VonMises: under the (weaker) vm_contract -- three results, a fixed kappa comes back exactly; scipy WRAPS a fixed location into [-pi,pi], so that clause is not assumed -- fitting succeeds, each fixed parameter still has exactly its value (the fixed mu is re-assigned by the code after the fit), the f_ attributes are unchanged *)
 Theorem C11_VM_fit_fixed :
   forall (fit : fitcall R -> list R) (s : VonMisesDistribution),
-       fit_contract fit ->
+       vm_contract fit ->
        exists s' : VonMisesDistribution,
          VonMisesDistribution__fit_mle RN fit s = Ok s' /\
          (forall v : R, VonMisesDistribution_f_kappa s = Some v -> VonMisesDistribution_kappa s' = v) /\
          (forall v : R, VonMisesDistribution_f_mu s = Some v -> VonMisesDistribution_mu s' = v) /\
          VonMisesDistribution_f_kappa s' = VonMisesDistribution_f_kappa s /\
          VonMisesDistribution_f_mu s' = VonMisesDistribution_f_mu s /\
-         c_params (VonMisesDistribution_cdf s' None None) = firstn 2 (fit (VM_call s)).
+         c_params (VonMisesDistribution_cdf s' None None) =
+         [nth 0 (fit (VM_call s)) 0; VM_fix_mu s (nth 1 (fit (VM_call s)) 0)].
 Proof. exact (@VM_fit_fixed). Qed.
 
 (* conditional distributions: a fixed parameter has the same value for every conditioning value *)
